@@ -179,6 +179,8 @@ class History:
         self._dirty_finish = set()
         self._late_started = set()
         self._native_in_gexit = set()
+        self._native_before_start = set()
+        self._req_vis = {}
         self._native_events = []          # (step, task): native Task.cancel() requests
         self._native_raised = []          # (step, task): a native CancelledError surfaced in the task
         self._prog_uncancel = []          # (step, task): the program called uncancel()
@@ -271,6 +273,8 @@ class History:
             elif c == S.NATIVECANCEL:
                 ext_events.append((i, a))
                 self._native_events.append((i, a))
+                if prev["tasks"].get(a, {}).get("state", 9) == 0:
+                    self._native_before_start.add(a)      # Task.cancel() by a third party before the task's first step
                 if a in pending and pending[a][0][0] == S.GEXIT and prev["tasks"][a]["state"] == 2 \
                         and (2000 + a) not in prev["ready"] and not prev["tasks"][a]["must"]:
                     self._native_in_gexit.add(a)      # interrupts the host inside __aexit__ (join or checkpoint)
@@ -404,8 +408,14 @@ class History:
                 vis = set(ref_visible_cancelled_set(snap, tk["cur"])) if tk["cur"] else set()
                 if tt == ran:
                     vis_acc[tt] = vis
+                    self._req_vis[tt] = set()
                 else:
                     vis_acc.setdefault(tt, set()).update(vis)
+                    pk_ = prev["tasks"].get(tt)
+                    if pk_ is not None and (tk["ncancel"] > pk_["ncancel"] or (tk["must"] and not pk_["must"])):
+                        # a cancellation request was placed on tt in this step: what was visible from its scope then
+                        before_vis = set(ref_visible_cancelled_set(prev, pk_["cur"])) if pk_["cur"] else set()
+                        self._req_vis.setdefault(tt, set()).update(before_vis | vis)
             for gs in self._failed_group_scopes:
                 scg = snap["scopes"].get(gs)
                 if scg and scg["active"] and not ref_eff_cancelled(snap, gs) and gs not in self._f23_reported:
@@ -445,8 +455,9 @@ class History:
                 self.flags.add("child_cancelled_before_first_step")
                 if tk["hstatus"] in (1, 2):
                     self.v("C01", f"step {i}: group {g} block left while the handle of child {m} is still not final (status "
-                                  f"{tk['hstatus']}): the child was natively cancelled before its first step, so TaskHandle._run_coro "
-                                  f"never ran and nobody will ever set the handle's finished event", tag="never_ran_handle_pending")
+                                  f"{tk['hstatus']}): the child was cancelled before its first step, so TaskHandle._run_coro "
+                                  f"never ran and nobody will ever set the handle's finished event",
+                           tag="never_ran_handle_pending" if m in self._native_before_start else None)
             elif tk["hstatus"] in (1, 2):
                 self.v("C01", f"step {i}: group {g} block left while the handle of child {m} is not final (status {tk['hstatus']})")
             elif m in finished_with:
@@ -544,6 +555,11 @@ class History:
             self.flags.add("cancel_delivered")
             if o not in visible:
                 self.v("C04", f"step {i}: task {t} (current scope {cur}) received a cancellation of scope {o}; the cancelled scopes visible from its current scope are {visible}")
+            elif not self.real and o not in now_visible and o not in self._req_vis.get(t, set()):
+                # visible at some moment since the task last ran, but neither now nor when a request was placed
+                self.v("C04", f"step {i}: task {t} (current scope {cur}) received the cancellation of scope {o}, which was "
+                              f"visible from its scope neither when the request was placed ({sorted(self._req_vis.get(t, set()))}) "
+                              f"nor now ({sorted(now_visible)})")
             elif not self.real and o not in now_visible:
                 # the request was placed while the origin was visible, then a shield went up before the task ran:
                 # asyncio cannot retract a Task.cancel(), the task is interrupted inside the now shielded scope
